@@ -228,6 +228,14 @@ class CellInvariant:
             return
         if cell.hash != ref.hash:
             R.violation(f'inv-hash-type{cell_type}-mask{ref.mask}', f'hash {cell.hash.hex()} != spec {ref.hash.hex()}', W())
+        # the explicitly recomputed representation hash (SHA-256 of the standard representation, children entering one level up under Merkle cells) is the hash
+        try:
+            rh = cell.calculate_representation_hash()
+        except Exception as e:
+            rh = e
+        R.count('inv_repr_hash_recomputed')
+        if rh != ref.hash:
+            R.violation(f'inv-repr-hash-differs-type{cell_type}-mask{ref.mask}', f'calculate_representation_hash() gives {rh.hex() if isinstance(rh, bytes) else rh!r}, the hash is {ref.hash.hex()}', W())
         for l in range(4):
             try:
                 h, d = cell.get_hash(l), cell.get_depth(l)
